@@ -2,7 +2,11 @@ package mod
 
 // C05 / C15 / C19 — the connection's transaction, write_time and deadline handling.
 
-import "go.riyazali.net/sqlite"
+import (
+	"time"
+
+	"go.riyazali.net/sqlite"
+)
 
 type vGhost struct {
 	userWT  bool
@@ -208,3 +212,47 @@ func VerifH_C19_conn_isolation() {
 }
 
 var _ = sqlite.SQLITE_OK
+
+// H15c: a statement whose xBegin is refused (SQLite then calls neither xSync,
+// xCommit nor xRollback for that table) leaves nothing behind: the next
+// statement of the connection, on another table, runs under its own time and
+// not under the time of the refused one.  The refusal used here is the one a
+// read-only table gives once BEGIN; <refused write>; COMMIT has run on it.
+func VerifH_C15_failed_begin() {
+	bkt := vNewBucket()
+	vVersions(bkt, 1)
+	symS3Register(bkt.client(1))
+	c := vConnect()
+	ro, err := c.vTable("ro", true)
+	symAssert(err == nil, "table-ok")
+	w, err := c.vTable("w", false)
+	symAssert(err == nil, "table-ok")
+	// BEGIN; INSERT INTO ro (refused); COMMIT
+	symAssert(ro.Begin() == nil, "begin-ok")
+	_, err = ro.Insert(symSQLInt(60), symSQLInt(1), symSQLNull())
+	symAssert(err != nil, "insert-refused")
+	symAssert(ro.Sync() == nil, "sync-ok")
+	symAssert(ro.Commit() == nil, "commit-ok")
+	_, has := vWriteTimeOf(c.m.sc.ctx)
+	symAssert(!has, "no-transaction-write-time-left-behind")
+	// a later write attempt on ro: its xBegin may be refused
+	if ro.Begin() == nil {
+		_, err = ro.Insert(symSQLInt(61), symSQLInt(1), symSQLNull())
+		symAssert(err != nil, "insert-refused")
+		symAssert(ro.Rollback() == nil, "rollback-ok")
+	} else {
+		symReach("begin-refused")
+	}
+	_, has = vWriteTimeOf(c.m.sc.ctx)
+	symAssert(!has, "refused-begin-leaves-no-write-time-behind")
+	// INSERT INTO w, some time later
+	issued := time.Now().UnixNano()
+	symAssert(w.Begin() == nil, "begin-ok")
+	wt, has := vWriteTimeOf(c.m.sc.ctx)
+	symAssert(has, "statement-has-a-write-time")
+	symAssert(wt >= issued, "statement-is-stamped-no-earlier-than-it-was-issued")
+	_, err = w.Insert(symSQLInt(70), symSQLInt(1), symSQLNull())
+	symAssert(err == nil, "insert-ok")
+	symAssert(w.Sync() == nil && w.Commit() == nil, "commit-ok")
+	symReach("end")
+}
